@@ -353,6 +353,25 @@ func (b *TermBank) Mod(x, y *Term) *Term {
 		if lo != nil && hi != nil && lo.Sign() >= 0 && hi.Cmp(y.Val) < 0 {
 			return x
 		}
+		// byte k of a 64-bit value: canonical decomposition byte!k(v) (axiom: v = sum byte!k(v)*256^k)
+		if y.Val.Cmp(big.NewInt(256)) == 0 {
+			v, k := x, -1
+			if x.Op == "div" && x.Args[1].Op == "int" {
+				if n, ok := isPow2Big(x.Args[1].Val); ok && n%8 == 0 && n < 64 {
+					v, k = x.Args[0], int(n/8)
+				}
+			} else {
+				k = 0
+			}
+			if k >= 0 && v.Op != "int" {
+				vlo, vhi := b.Bounds(v)
+				if vlo != nil && vhi != nil && vlo.Sign() >= 0 && vhi.BitLen() <= 64 {
+					t := b.App(fmt.Sprintf("byte!%d", k), SInt, v)
+					b.SetBounds(t, new(big.Int), big.NewInt(255))
+					return t
+				}
+			}
+		}
 		// drop summands that are multiples of y
 		l := b.linOf(x)
 		changed := false
@@ -502,6 +521,14 @@ func (b *TermBank) bounds1(t *Term) (lo, hi *big.Int) {
 		return
 	}
 	return nil, nil
+}
+
+func isPow2Big(v *big.Int) (uint, bool) {
+	if v.Sign() <= 0 {
+		return 0, false
+	}
+	n := uint(v.BitLen() - 1)
+	return n, new(big.Int).Lsh(big.NewInt(1), n).Cmp(v) == 0
 }
 
 func floorDiv(a, m *big.Int) *big.Int {
